@@ -5,6 +5,8 @@
 #include <cocls/callback_awaiter.h>
 #include <cocls/future_conv.h>
 #include <cocls/coro_storage.h>
+#include <cocls/alloca_storage.h>
+#include <alloca.h>
 #include <thread>
 #include <vector>
 
@@ -78,14 +80,14 @@ struct Handler {
 }
 
 void dsim_scenario() {
-    int adapter = dsim::choose(12);
+    int adapter = dsim::choose(13);
     int nops = 1 + dsim::choose(2);           // consecutive operations on a reused adapter / storage
     int outcome[2], timing[2]; long val[2];
     for (int i = 0; i < nops; i++) { outcome[i] = dsim::choose(3); timing[i] = dsim::choose(3); val[i] = SRC + (dsim::choose(6) == 5 ? 13 : i + 1); }
     dsim::plan_note("adapter=%d ops=%d", adapter, nops);
     for (int i = 0; i < nops; i++) dsim::plan_note(" [outcome%d timing%d val%ld]", outcome[i], timing[i], val[i]);
     {
-        CountingStorage cstor; cocls::reusable_storage rstor; Ctx ctx; Handler handler;
+        CountingStorage cstor; cocls::reusable_storage rstor; Ctx ctx; Handler handler; std::size_t stack_state = 0;
         for (int i = 0; i < nops; i++) {
             Source src; src.outcome = outcome[i]; src.timing = timing[i]; src.val = val[i];
             int exp_outcome = outcome[i]; long exp_val = val[i];
@@ -135,6 +137,14 @@ void dsim_scenario() {
                 out.sync();
                 classify(i, [&] { return out.value(); });
                 if (exp_outcome == O_VALUE) exp_val = 99;
+                break; }
+            case 12: {  // callback_await_alloc on a stack block (the way scheduler::start uses it): the block outlives the operation
+                cocls::stack_storage sstor(stack_state);
+                std::size_t want = sstor; char *blk = (char *)alloca(want + 8); memset(blk, 0x5A, want + 8);
+                sstor = (void *)blk;
+                cocls::callback_await_alloc<cocls::stack_storage, cocls::future<long>>(sstor, cb, [&] { return src.work(); });
+                src.finish();
+                for (std::size_t b = want; b < want + 8; b++) if (blk[b] != 0x5A) dsim::fail("C18.storage_balance", "stack block of %zu bytes overrun", want);
                 break; }
             default: {  // call_fn_future_awaiter
                 handler.op = i;
